@@ -62,6 +62,18 @@ fn known_listed(id: &str) -> bool {
     LISTED.get_or_init(|| load_known_findings().into_iter().filter(|k| k.kind == "finding").map(|k| k.id).collect()).iter().any(|x| x == id)
 }
 
+/// A listed C14 finding that is identified by what the source or its re-printed text looks like.
+fn known_by_text(k: &KnownFinding, class: &str, source: &str, printed: &str) -> bool {
+    if k.kind != "finding" || k.property != "C14" || (k.source_regex.is_empty() && k.printed_regex.is_empty()) {
+        return false;
+    }
+    if !(k.classes.is_empty() || k.classes.iter().any(|c| c == class)) {
+        return false;
+    }
+    let hit = |re: &str, text: &str| !re.is_empty() && regex::Regex::new(re).map(|re| re.is_match(text)).unwrap_or(false);
+    hit(&k.source_regex, source) || hit(&k.printed_regex, printed)
+}
+
 fn discard(reason: &str, key: &str) -> RunResult {
     let mut stats = Stats::default();
     stats.add(key, 1);
@@ -255,9 +267,8 @@ pub fn check(args: &Args) -> i32 {
         let (w2, v2, tried) = shrink_c14(&w, &v.class, 400);
         let tags = world_tags(&w2);
         let root_src = w2.root_file().to_wxml();
-        let by_source = known.iter().find(|k| {
-            k.kind == "finding" && k.property == "C14" && !k.source_regex.is_empty() && (k.classes.is_empty() || k.classes.iter().any(|c| c == &v2.class)) && regex::Regex::new(&k.source_regex).map(|re| re.is_match(&root_src)).unwrap_or(false)
-        });
+        let root_printed = reprint(&w2.root_path, &root_src, false).map(|r| r.text).unwrap_or_default();
+        let by_source = known.iter().find(|k| known_by_text(k, &v2.class, &root_src, &root_printed));
         if let Some(k) = by_source.or_else(|| crate::shrink::match_known(&known, "C14", &v2.class, &tags, &[])) {
             if known_seen.insert(k.id.clone()) {
                 println!("KNOWN-FINDING: property=C14 {}", k.what);
@@ -311,9 +322,8 @@ pub fn check(args: &Args) -> i32 {
             grid_violating += 1;
             let mut rv = crate::c14grid::world(seed, i as u64);
             let src = rv["sources"][0][1].as_str().unwrap_or("").to_string();
-            if let Some(k) = known.iter().find(|k| {
-                k.kind == "finding" && k.property == "C14" && !k.source_regex.is_empty() && (k.classes.is_empty() || k.classes.iter().any(|c| c == &v.class)) && regex::Regex::new(&k.source_regex).map(|re| re.is_match(&src)).unwrap_or(false)
-            }) {
+            let printed = reprint("index", &src, false).map(|r| r.text).unwrap_or_default();
+            if let Some(k) = known.iter().find(|k| known_by_text(k, &v.class, &src, &printed)) {
                 if known_seen.insert(k.id.clone()) {
                     println!("KNOWN-FINDING: property=C14 {}", k.what);
                     known_reported.push(json!({"id": k.id, "what": k.what, "first_run": format!("grid-{}", i)}));
